@@ -131,6 +131,16 @@ NONCANON = [
     # anonymous constants and padding among the named members (Stable.anon_det): junk in the padding, non-minimal VarInt
     ('Struct(Const(b"MZ"), "a"/Int16ul, Padding(2), "d"/VarInt, Const(7, Byte))', [b'MZ\x01\x00\xaa\xbb\x85\x00\x07', b'MZ\x00\x00\x00\x00\x01\x07', b'MQ\x00\x00\x00\x00\x01\x07']),
     ('Struct(Const(b"TL"), "t"/Byte, "n"/Byte, "v"/Switch(this.t, {1: Bytes(this.n), 2: Array(this.n, Int16ub)}, default=Pass), Padding(1))', [b'TL\x01\x03abc\xee', b'TL\x02\x01\x00\x05\x00', b'TL\x09\x09\xff']),
+    # optional terminators: what build writes must still delimit the field when something follows
+    ('Struct("s"/NullTerminated(GreedyBytes, require=False), "n"/Byte)', [b'ab\x00\x07', b'\x00\x07']),
+    ('Array(2, NullTerminated(GreedyBytes, require=False))', [b'ab\x00c\x00', b'\x00\x00']),
+    ('Prefixed(Byte, Struct("s"/NullTerminated(GreedyBytes, term=b"\\r\\n", require=False), "g"/GreedyBytes))', [b'\x06ab\r\nxy', b'\x02\r\n']),
+    ('Struct("s"/NullTerminated(Int16ub, require=False), "t"/Const(b"!"))', [b'\x01\x02\x00!']),
+    # underscore-named members referred to before they are built (Rebuild / Default over the value being built)
+    ('Struct("count"/Rebuild(Byte, len_(this._items)), "_items"/Array(this.count, Byte))', [b'\x02\x01\x02', b'\x00']),
+    ('Struct("n"/Rebuild(VarInt, len_(this._d)), "_d"/Bytes(this.n), "z"/Byte)', [b'\x82\x00ab\x07', b'\x00\x07']),
+    ('Struct("h"/Struct("l"/Rebuild(Byte, len_(this._._body))), "_body"/Bytes(this.h.l))', [b'\x03abc']),
+    ('Struct("k"/Default(Byte, this._v + 1), "_v"/Byte)', [b'\x05\x04', b'\x00\x09']),
     # tag-length-value (StableDep): payload chosen by the tag and sized by the length; non-minimal VarInts, non-zero padding
     ('Struct("t"/Byte, "n"/Byte, "v"/Switch(this.t, {1: Bytes(this.n), 2: Array(this.n, Int16ub)}, default=Pass), "f"/IfThenElse(this.t, VarInt, Pass))',
      [b'\x02\x02\x01\x02\x00\x03\xac\x82\x00', b'\x01\x03abc\x80\x00', b'\x00\x09', b'\x07\x00\x81\x80\x00', b'\x01\x05ab']),
@@ -181,6 +191,25 @@ def run(tier, seed):
         for d in datas:
             acc.check('canonical', node.src, data=d)
             cases.append(dict(src=node.src, op='parse', data=d))
+    # two-feature interactions: every wrapper class over every kind of inner construct, on what it builds and on mutations of that
+    for src, v in C.pairs(selfdelimiting=True):
+        if not C.constructible(src):
+            continue
+        try:
+            d = C.get(src).build(v)
+        except BaseException:
+            continue
+        xs = (d, d + b'\x00', G.mutate(rng, d), G.mutate(rng, d))
+        if src.startswith('Peek('):
+            continue           # builds nothing, by design
+        if src.startswith(('Rebuild(', 'Restreamed(')) or (src.startswith('NullTerminated(') and 'term=' in src):
+            xs = (d,)          # recomputed on build / unit-wise streams: only what they build themselves is in their domain
+        if src.startswith(('Optional(', 'Select(')):
+            xs = (d,)          # an input the first alternative rejects parses as None, which builds as that alternative again when it
+                               # builds from nothing: recorded known finding (Optional(Const(..))), not multiplied here
+        for x in xs:
+            acc.check('canonical', src, data=x)
+            cases.append(dict(src=src, op='parse', data=x))
     for kind, name, blob in GALLERY:
         acc.check('gallery', '%s.%s' % (kind, name), which=kind, name=name, blob=blob)
     # known findings (recorded, not repaired): probes
